@@ -518,3 +518,40 @@ def s_to_model_proto_frame(ctx):
 
 
 SCENARIOS.append(Scenario("C14.to_model_proto.frame", s_to_model_proto_frame, [("onnxscript/_internal/values.py", "OnnxFunction.to_model_proto")]))
+
+
+def s_reference_evaluator_history(ctx):
+    """The module-level ReferenceEvaluator used for constant folding carries no history: what get_evaluator / evaluate return for
+    (domain, op, version) is what the reference implementation registry returns for exactly these three — also right after a lookup of the
+    same operator at ANOTHER version (models of different opsets optimized in one process).  Versions are symbolic."""
+    import onnx
+    import z3
+    from onnxscript.optimizer import _constant_folding as cf
+    from pyvc.values import SInt, term
+    I = Interp(ctx)
+    ev = I.instantiate(cf.ReferenceEvaluator, [], {})
+    v1, v2 = ctx.int("version_first"), ctx.int("version_then")
+    ctx.assume(z3.And(v1 >= 1, v2 >= 1))
+    ctx.witness.update(version_first=v1, version_then=v2)
+    same_op = ctx.choose(2, "the second lookup is for the same operator") == 0
+    asked = []
+
+    def m_load_op(interp, domain, op, version=None, *a, **k):
+        asked.append((domain, op, version))
+        impl = SObj(object, "implementation_class")
+        impl.fields["eval"] = ("eval of", domain, op, version)
+        return impl
+    I.models[onnx.reference.ops.load_op] = m_load_op
+    first = I.call(I.getattr(ev, "get_evaluator"), ["", "Squeeze", SInt(v1)])
+    second = I.call(I.getattr(ev, "get_evaluator"), ["", "Squeeze" if same_op else "Softmax", SInt(v2)])
+    cl = ("C14: 'gives the same serialized result in every process ... regardless of which other scripts or models ... were handled earlier in the same process "
+          "by the same decorator, pass and rule objects' — the reference implementation of an operator depends on the opset version")
+    ok = isinstance(second, tuple) and len(second) == 4
+    ctx.check("C14.folding.reference_evaluator.lookup_result_is_an_implementation_of_the_requested_operator", ok and second[1:3] == ("", "Squeeze" if same_op else "Softmax"), cl)
+    if ok:
+        ctx.check("C14.folding.reference_evaluator.lookup_uses_the_requested_version_whatever_was_looked_up_before", term(second[3]) == v2, cl)
+
+
+SCENARIOS.append(Scenario("C14.folding.reference_evaluator_history", s_reference_evaluator_history,
+                          [("onnxscript/optimizer/_constant_folding.py", "ReferenceEvaluator.get_evaluator")],
+                          trusted=["onnx.reference.ops.load_op(domain, op, version) is a function of its three arguments (onnx)"]))
